@@ -32,7 +32,12 @@ import warnings
 from datetime import datetime
 
 ROOT = os.path.dirname(os.path.dirname(os.path.abspath(__file__)))
-REPO_PKG = "/repo/tradingenv"
+# Sensitivity self-tests point VERIF_PKG_ROOT at a scratch copy of the repository (a mutant);
+# registered checks never set it and always import /repo's working tree.
+PKG_ROOT = os.path.realpath(os.environ.get("VERIF_PKG_ROOT", "/repo"))
+REPO_PKG = os.path.join(PKG_ROOT, "tradingenv")
+if PKG_ROOT != "/repo":
+    sys.path.insert(0, PKG_ROOT)
 
 
 class Result:
@@ -238,7 +243,7 @@ def load_module(pid):
     import tradingenv
     path = os.path.realpath(tradingenv.__file__)
     if not path.startswith(REPO_PKG + "/"):
-        raise HarnessError("tradingenv imported from %s, not from /repo" % path)
+        raise HarnessError("tradingenv imported from %s, not from %s" % (path, PKG_ROOT))
     return importlib.import_module("props.%s" % pid.lower())
 
 
